@@ -111,9 +111,15 @@ func (stats *Stats) CountNode(n Node) {
 func (s *Stats) CountBalance(b Balance) {
 	s.TotalCredit.Add(&s.TotalCredit, &b.Credit)
 	s.TotalDeposit.Add(&s.TotalDeposit, &b.Deposit)
-	if b.Account == "" {
-		s.NumTrialBalances += 1
-	}
+}
+
+// CountTrialBalance is CountBalance for the balance of a node that is not
+// linked to an account. Which balances are trial balances is known to the
+// store that keeps them apart, it can't be told from the balance (an account
+// can have the empty name).
+func (s *Stats) CountTrialBalance(b Balance) {
+	s.CountBalance(b)
+	s.NumTrialBalances += 1
 }
 
 // Store is the storage interface used by VipnodePool. It should be goroutine-safe.
